@@ -278,6 +278,18 @@ func LoadOfField(v ssa.Value, field string, base func(ssa.Value) bool) bool {
 }
 
 // FieldNameOfLoad returns the field name when v is a load of x.field.
+// FieldNameOfRead is FieldNameOfLoad that also accepts a field of a struct
+// value (x.f with x not addressable).
+func FieldNameOfRead(v ssa.Value) (string, ssa.Value, bool) {
+	if fv, ok := Unwrap(v).(*ssa.Field); ok {
+		if f := FieldOf(fv); f != nil {
+			return f.Name(), fv.X, true
+		}
+		return "", nil, false
+	}
+	return FieldNameOfLoad(v)
+}
+
 func FieldNameOfLoad(v ssa.Value) (string, ssa.Value, bool) {
 	u, ok := Unwrap(v).(*ssa.UnOp)
 	if !ok || u.Op != token.MUL {
